@@ -534,9 +534,12 @@ fn reader_loop(ctx: Arc<Ctx>, id: i64, mut s: TcpStream, wr: Arc<Mutex<Option<Tc
                 None => bad("payload not recognised"),
             },
             9 => {
+                let f = frame_bytes(true, 10, &p, [7, 7, 7, 7]);
+                let mut g = wr.lock().unwrap_or_else(|e| e.into_inner());
+                // checked under the write lock: nothing may follow the client's Close frame (unread bytes
+                // would turn the server's orderly close into a reset)
                 if !quiet.load(Ordering::SeqCst) {
-                    let f = frame_bytes(true, 10, &p, [7, 7, 7, 7]);
-                    if let Some(w) = wr.lock().unwrap_or_else(|e| e.into_inner()).as_mut() {
+                    if let Some(w) = g.as_mut() {
                         let _ = w.write_all(&f);
                     }
                 }
@@ -889,7 +892,7 @@ fn emit(events: &[Rec], run: i64) {
 
 fn random_run(run: i64, rng: &mut Rng, maxclients: usize) -> RunOut {
     let nclients = rng.range(1, maxclients);
-    let workers = *rng.pick(&[1usize, 1, 2, 2, 3, 4, 8]);
+    let workers = *rng.pick(&[1usize, 1, 2, 2, 3, 4, 5, 6, 7, 8]);
     let poll = match rng.below(4) {
         0 => None,
         1 => Some(Duration::from_millis(0)),
